@@ -648,7 +648,10 @@ class FitEngine(Engine):
             if lo <= est[i] <= hi and not (a <= est[i] <= b):
                 ctx.violate("windows", f"automatic window {i} = [{a}, {b}] does not contain its estimate "
                             f"{est[i]}", kind="windows:contain")
-            tol = 1e-12 * max(1.0, abs(hi), abs(lo))
+            # the distances are computed in the precision of the caller's estimates: a few
+            # float32 ulps of the coordinate scale when the caller works in single precision
+            eps = 1e-12 if scn.get("arg_dtype", "float64") == "float64" else 4 * 2.0 ** -23
+            tol = eps * max(1.0, abs(hi), abs(lo))
             if not lo <= est[i] <= hi:
                 # for an estimate outside the data, "inside the range" and "keep the distance from
                 # the neighbour" can contradict each other: only the range is judged
